@@ -119,6 +119,18 @@ def record(sc):
             for call in sc["calls"]:
                 kw = dict(thresholds=[v / 8.0 for v in call["list"]]) if call["kind"] == "u" else dict(quantiles=[a / A for a, A in call["list"]])
                 res = smc.sample(sc["n"], bar=False, **kw)
+                if sc["seed"] % 2 == 0:
+                    # the user LOOKS at the result (print, summaries of every population) before anything else is read:
+                    # reading must not change what the result - and the sampler that goes on from it - holds
+                    import contextlib
+                    import io
+                    try:
+                        with contextlib.redirect_stdout(io.StringIO()):
+                            str(res)
+                            res.summary(all=True)
+                            res.sample_means_summary(all=True)
+                    except Exception:
+                        pass
                 forced = list(smc.objective["thresholds"])
                 for i in range(npop, len(res.populations)):
                     p = res.populations[i]
